@@ -537,5 +537,5 @@ def run(tier: str) -> int:
     rep.assumptions = ["(f) covers trees the parser and the rules can produce (one-operand nodes with the operand on the right)",
                        "(c) uses concrete numeral pools because text needs digits"]
     random.Random(seed()).shuffle(items)
-    collect(rep, pmap(worker, items, budget_s=420 if tier == "quick" else 3000, chunk=8))
+    collect(rep, pmap(worker, items, budget_s=420 if tier == "quick" else 720, chunk=8))
     return rep.finish(required_reach=["like", "pair", "extract", "make", "factor", "noraise"])
